@@ -8,14 +8,15 @@
 set -u
 export GOFLAGS=-mod=mod GOPROXY=off GOSUMDB=off GOTOOLCHAIN=local
 id=$1; k=$2; name=$3
-src=/tmp/mut/$id/out/$k
+mbase=${MUT_SRC:-/tmp/mut/$id}
+src=$mbase/out/$k
 root=$(cd "$(dirname "$0")/../.." && pwd)
 wt=/tmp/ingest-$id-$k-$$
 log=/tmp/ingest-$id-$k-$$.log
 [ -f $src/patch.diff ] && [ -f $src/meta.json ] || { echo "missing $src/patch.diff or meta.json"; exit 2; }
 git -C /repo worktree add -q --detach $wt HEAD || exit 2
 trap 'git -C /repo worktree remove --force $wt >/dev/null 2>&1; rm -rf $wt $log' EXIT
-demo_cmd=$(python3 -c "import json,sys; print(json.load(open('$src/meta.json'))['demo_cmd'])" | sed "s#/tmp/mut/$id/wt#$wt#g" | sed -E "s/ {2,}\\(.*$//")
+demo_cmd=$(python3 -c "import json,sys; print(json.load(open('$src/meta.json'))['demo_cmd'])" | sed "s#$mbase/wt#$wt#g" | sed -E "s/ {2,}\\(.*$//")
 put_demo() {
   while read -r rel; do
     [ -z "$rel" ] && continue
